@@ -196,6 +196,35 @@ def run(chk):
                          nontrivial=lambda sc, o: True, dist=lambda sc, o: {'map_kind': sc['ops'][1]['op'], 'n_jobs': sc['pool']['n_jobs']})
     for sc, o in zip(ms, mobs):
         mixed_judge(chk, sc, o)
+    # timeouts of very different size in one pool: a task with a long limit is in flight when a blocking task with a short limit is
+    # submitted — the short one is failed within its own limit plus the scan period, whatever else is being watched
+    tm = []
+    for _ in range(30 if chk.tier == 'quick' else 400):
+        nj = rng.choice([2, 3])
+        short = rng.choice([0.2, 0.3, 0.5])
+        tm.append({'seed': rng.randint(0, 10 ** 6), 'pool': {'n_jobs': nj, 'start_method': 'fork'}, 'same_func': False, 'relax_shape': True, 'short': short,
+                   'ops': [{'op': 'apply_batch', 'defer_wait': True, 'tasks': [{'idx': 0}], 'task_timeout': rng.choice([30.0, 60.0, 600.0]), 'get_timeout': 60,
+                            'dur': {'kind': 'map', 'map': {'0': rng.choice([2.0, 4.0])}, 'default': 0.01}},
+                           {'op': 'sleep', 'd': rng.choice([0.05, 0.2, 0.35])},
+                           {'op': 'apply_batch', 'tasks': [{'idx': 0}], 'task_timeout': short, 'get_timeout': 60, 'dur': {'kind': 'map', 'map': {'0': 50.0}, 'default': 0.01}},
+                           {'op': 'apply_collect', 'of': 0}]})
+    tobs = run_scenarios(chk, 'a short timeout submitted while a task with a long timeout is in flight (DetSim)', tm, {'C03'}, nontrivial=lambda sc, o: True,
+                         dist=lambda sc, o: {'short': sc['short'], 'long': sc['ops'][0]['task_timeout']})
+    for sc, o in zip(tm, tobs):
+        if o.get('harness_error') or o.get('stuck') or len(o.get('ops', [])) < 4:
+            continue
+        a2 = (o['ops'][2].get('apply') or [[None, None, None, None]])[0]
+        if a2[1] != 'raise' or a2[2] != 'TimeoutError':
+            chk.violation('timeout_fires', {'scenario': sc}, {'short_task': a2}, 'the blocking task with the short limit is failed with TimeoutError', input_class='timeout_fires_mixed')
+            continue
+        lat = o['ops'][2]['t1'] - o['ops'][2]['t0']
+        bound = sc['short'] + SCAN + 0.25
+        if lat > bound:
+            chk.violation('timeout_prompt', {'scenario': sc}, {'latency_virtual_s': round(lat, 3), 'bound': bound}, 'TimeoutError within timeout + scan period + small slack, whatever other limits are being watched',
+                          input_class='timeout_prompt_mixed')
+        a0 = (o['ops'][0].get('apply') or [[None, None, None, None]])[0]
+        if a0[1] != 'ok':
+            chk.violation('no_false_timeout', {'scenario': sc}, {'long_task': a0}, 'the task with the long limit completes', input_class='no_false_timeout_mixed')
     # the running-task hand-shake of every interrupted worker instance vs Mpire.Kill.step
     klines, krefs = [], []
     for sc, o in zip(scs, obs):
